@@ -109,6 +109,88 @@ func genHistory(c *core.Ctx, codec string, nOps, maxSize, hostileMax int, badRat
 	return h
 }
 
+// ---- sizes at the thresholds of the formats ------------------------------------------
+//
+// Windows, blocks and offset limits of the formats are powers of two (gzip 32 KiB
+// window, snappy / LZ4 64 KiB blocks and offsets, zstd 128 KiB blocks and 1-32 MiB
+// windows that depend on the encoder level, brotli windows up to 16 MiB): inputs
+// just below and just above each of them, for every codec value and every level.
+
+var (
+	smallBounds = []int{32 << 10, 64 << 10, 128 << 10}
+	midBounds   = []int{1 << 20}
+	bigBounds   = []int{4 << 20, 8 << 20, 16 << 20, 32 << 20}
+)
+
+// gensFor: the input generators used above 4 MiB.  A few encoder settings take
+// seconds per MiB on text-like data (brotli quality >= 10, the LZ4 HC levels,
+// gzip 9 on runs of zeros); they get the generators they handle quickly.
+func gensFor(name string, size int) []string {
+	all := []string{"rand", "rep", "text", "zero", "ramp", "mixed"}
+	if size <= 4<<20+(1<<19) && !quickTier {
+		return all
+	}
+	base, level, _ := strings.Cut(name, "@")
+	switch {
+	case base == "brotli" && (strings.HasPrefix(level, "10") || strings.HasPrefix(level, "11")):
+		return []string{"rep", "ramp", "zero"}
+	case base == "lz4" && level != "99":
+		return []string{"rand", "rep", "ramp", "zero"}
+	case base == "gzip" && level == "9":
+		return []string{"rand", "rep", "ramp"}
+	}
+	return all
+}
+
+var quickTier bool
+
+// boundaryHistory: round trips of inputs of B-1 or B, B+1 (and, when more is
+// set, somewhere in the eighth above B) bytes for every B of bounds.
+func boundaryHistory(c *core.Ctx, name string, bounds []int, more bool) *history {
+	h := &history{Codec: name}
+	for _, b := range bounds {
+		sizes := []int{b - c.Rng.Intn(2), b + 1}
+		if more {
+			sizes = append(sizes, b+2+c.Rng.Intn(b/8))
+		}
+		for _, size := range sizes {
+			g := gensFor(name, size)
+			in := inputSpec{Gen: g[c.Rng.Intn(len(g))], Size: size, Seed: int64(c.Rng.Intn(1 << 20))}
+			enc, dec := genDst(c, size), genDst(c, size)
+			if size > 1<<20 && c.Rng.Intn(2) == 0 {
+				enc, dec = dstSpec{Mode: "nil"}, dstSpec{Mode: "nil"}
+			}
+			h.Ops = append(h.Ops, op{Kind: "rt", In: in, EncDst: enc, DecDst: dec})
+		}
+		if b >= 1<<20 {
+			h.DeadlineS = 600 // the slowest settings need tens of seconds for one call at these sizes
+		}
+	}
+	return h
+}
+
+// boundaryHistories: quick - the small thresholds for every codec value and
+// level, 4 and 8 MiB for the exported values and every zstd level; thorough -
+// every threshold up to 32 MiB for every codec value and level.
+func boundaryHistories(c *core.Ctx) []*history {
+	var hs []*history
+	for _, name := range codecNames(true) {
+		small := smallBounds
+		if c.Tier != "quick" {
+			small = append(append([]int(nil), smallBounds...), midBounds...)
+		}
+		hs = append(hs, boundaryHistory(c, name, small, c.Tier != "quick"))
+		if c.Tier != "quick" {
+			for _, b := range bigBounds {
+				hs = append(hs, boundaryHistory(c, name, []int{b}, true))
+			}
+		} else if !strings.Contains(name, "@") || baseCodec(name) == "zstd" {
+			hs = append(hs, boundaryHistory(c, name, bigBounds[:2], false))
+		}
+	}
+	return hs
+}
+
 // ---- running and reporting ----------------------------------------------------
 
 // outcomeOf runs a history in a child process (also the test codec: a broken
@@ -252,6 +334,20 @@ func shrink(h *history, f failure, budget int) (*history, failure) {
 		}
 		if !changed {
 			break
+		}
+	}
+	// a size threshold: halving passes, the size itself fails; bisect between them
+	if last := cur.Ops[len(cur.Ops)-1]; last.Kind == "rt" && last.In.Size > 1 {
+		lo, hi := last.In.Size/2, last.In.Size // lo passes (or was not reachable), hi fails
+		for steps := 0; hi-lo > 1 && steps < 26 && budget > 0; steps++ {
+			o := last
+			o.In.Size = lo + (hi-lo)/2
+			t := &history{Codec: cur.Codec, DeadlineS: cur.DeadlineS, Ops: append(append([]op(nil), cur.Ops[:len(cur.Ops)-1]...), o)}
+			if g := try(t); g != nil {
+				cur, curF, hi = t, *g, o.In.Size
+			} else {
+				lo = o.In.Size
+			}
 		}
 	}
 	return cur, curF
